@@ -110,6 +110,9 @@ class Project(object):
                 self.files[rel] = {"kind": kind, "layout": gen_layout(ch, rel, kind, self.names[kind], self.versions[0], rich),
                                    "style": gen_style(ch, rel + ".style")}
                 self.by_kind[kind].append(rel)
+        self.crlf = {rel for rel in sorted(self.files) if ch.chance("crlf." + rel, 0.06)}
+        # two kinds may live in one file: the class file is then also named as a file of the function kind
+        self.shared = ch.chance("shared", 0.1) and "." not in self.names["function"]
 
     def desc(self):
         return self.versions[self.cur]
@@ -117,7 +120,10 @@ class Project(object):
     def text(self, rel, state="present", version=None):
         f = self.files[rel]
         d = self.versions[self.cur if version is None else version]
-        return f["layout"].text(d, f["style"], state)
+        t = f["layout"].text(d, f["style"], state)
+        if t and rel in getattr(self, "crlf", ()):
+            t = t.replace("\n", "\r\n")  # a file kept with Windows line endings
+        return t
 
     def new_version(self, label):
         self.versions.append(render.edit_desc(self.ch, self.desc(), label))
@@ -134,6 +140,10 @@ def sync_op(proj, ch, label, truth=None, kinds=None, via=None, avoid_known=True)
     for k in KINDS:
         if k in kinds:
             targets[k] = {"files": list(proj.by_kind[k]), "name": proj.names[k]}
+    # (only when neither of the two kinds is the truth: naming the truth file as a target of another kind is a request
+    #  to modify it, which the property does not speak about)
+    if getattr(proj, "shared", False) and "function" in targets and "class" in targets and truth == "argparse_function":
+        targets["function"]["files"] = targets["function"]["files"] + [proj.by_kind["class"][0]]
     return {"op": "sync", "truth": truth, "via": via or ch.weighted(label + ".via", [("cli", 0.6), ("api", 0.4)]), "targets": targets}
 
 
@@ -237,6 +247,10 @@ def gen_scenario(seed, focus="C20"):
             proj.new_version(lab + ".edit")
             tf = proj.by_kind[last_sync["truth"]][0]
             ops.append({"op": "env", "path": tf, "text": proj.text(tf), "label": "edit_truth"})
+            continue
+        elif what == "perturb" and last_sync and ch.chance(lab + ".transform", 0.3):
+            rel = ch.choice(lab + ".tfile", sorted(proj.files))
+            ops.append({"op": "env_transform", "path": rel, "how": ch.choice(lab + ".how", ["crlf", "crlf", "strip_trailing_newline", "append_blank_lines"])})
             continue
         elif what == "perturb":
             rel = ch.choice(lab + ".file", sorted(proj.files))
